@@ -20,6 +20,10 @@ Lemma t_tbl_sorted : ssorted t_tbl.
 Proof. repeat constructor; simpl; intros kp H; repeat (destruct H as [<-|H]; simpl; try lia); destruct H. Qed.
 Lemma t_tbl_final : final_active t_tbl = [].
 Proof. reflexivity. Qed.
+(* the identities reported for every character *)
+Definition t_sets (p : astr) : list (list nat) :=
+  map (fun k => map sid (settings_at_nat p k)) (seq 0 (length (base p))).
+Example t_sets_src : t_sets (t_mk "xxabxx") = [[]; [1]; [1]; [2]; [2]; []]. Proof. reflexivity. Qed.
 
 (* ================================================================== *)
 (* pieces                                                             *)
@@ -196,6 +200,28 @@ Qed.
 Theorem strip_wf s chars dl dr : ssorted (tbl s) -> nodup_active s -> wf_piece (strip s chars dl dr).
 Proof. intros Hs Hn. rewrite strip_as_slice. now apply slice_wf. Qed.
 
+(* non-vacuity: the test value satisfies every hypothesis used in this file *)
+Lemma t_nodup x : nodup_active (t_mk x).
+Proof.
+  intros k. unfold t_mk; cbn [tbl].
+  do 6 (destruct k as [|k]; [vm_compute; repeat constructor; simpl; intuition discriminate|]).
+  vm_compute. constructor.
+Qed.
+Example ex_hyps x : ssorted (tbl (t_mk x)) /\ nodup_active (t_mk x) /\ final_active (tbl (t_mk x)) = [].
+Proof. split; [apply t_tbl_sorted|]. split; [apply t_nodup|reflexivity]. Qed.
+
+(* "xxabxx".strip("x"): offset 2, the characters keep red (1) and bold (2) *)
+Example ex_strip : let p := strip (t_mk "xxabxx") (tS "x") true true in
+  base p = tS "ab" /\ t_sets p = [[1]; [2]] /\ strip_off (t_mk "xxabxx") (tS "x") true = 2.
+Proof. vm_compute. auto. Qed.
+(* a chars set that strips everything; right strip only; empty chars *)
+Example ex_strip_all : base (strip (t_mk "xxxxxx") (tS "x") true true) = []
+  /\ base (strip (t_mk "xxxxxx") (tS "x") false true) = []
+  /\ base (strip (t_mk "xxabxx") [] true true) = tS "xxabxx".
+Proof. vm_compute. auto. Qed.
+Example ex_strip_piece := strip_piece (t_mk "xxabxx") (tS "x") true true t_tbl_sorted.
+Example ex_strip_wf := strip_wf (t_mk "xxabxx") (tS "x") true true t_tbl_sorted (t_nodup _).
+
 (* ================================================================== *)
 (* 2. removeprefix / removesuffix                                     *)
 (* ================================================================== *)
@@ -270,6 +296,17 @@ Proof.
   intros Hs Hn Hf. unfold removesuffix.
   destruct (is_nil p || negb (ends_with (base s) p)); [now split|now apply slice_wf].
 Qed.
+
+Example ex_removeprefix : let p := removeprefix (t_mk "xxabxx") (tS "xxa") in
+  base p = tS "bxx" /\ t_sets p = [[2]; [2]; []] /\ removeprefix_off (t_mk "xxabxx") (tS "xxa") = 3.
+Proof. vm_compute. auto. Qed.
+Example ex_removeprefix_no : removeprefix (t_mk "xxabxx") (tS "xa") = t_mk "xxabxx". Proof. reflexivity. Qed.
+Example ex_removesuffix : let p := removesuffix (t_mk "xxabxx") (tS "bxx") in
+  base p = tS "xxa" /\ t_sets p = [[]; [1]; [1]].
+Proof. vm_compute. auto. Qed.
+Example ex_removesuffix_empty : removesuffix (t_mk "xxabxx") [] = t_mk "xxabxx". Proof. reflexivity. Qed.
+Example ex_removeprefix_piece := removeprefix_piece (t_mk "xxabxx") (tS "xxa") t_tbl_sorted.
+Example ex_removesuffix_wf := removesuffix_wf (t_mk "xxabxx") (tS "bxx") t_tbl_sorted (t_nodup _) t_tbl_final.
 
 (* ================================================================== *)
 (* 3. partition / rpartition                                          *)
@@ -413,6 +450,22 @@ Theorem partition_wf s sep : ssorted (tbl s) -> nodup_active s -> final_active (
 Proof. intros. now apply partition_at_wf. Qed.
 Theorem rpartition_wf s sep : ssorted (tbl s) -> nodup_active s -> final_active (tbl s) = [] -> wf3 (rpartition s sep).
 Proof. intros. now apply partition_at_wf. Qed.
+
+(* a separator that overlaps itself: "baaab" around "aa" *)
+Example ex_partition : let '(a, b, c) := partition (t_mk "baaab") (tS "aa") in
+  (base a, base b, base c) = (tS "b", tS "aa", tS "ab") /\ (t_sets a, t_sets b, t_sets c) = ([[]], [[1]; [1]], [[2]; [2]]).
+Proof. vm_compute. auto. Qed.
+Example ex_rpartition : let '(a, b, c) := rpartition (t_mk "baaab") (tS "aa") in
+  (base a, base b, base c) = (tS "ba", tS "aa", tS "b") /\ (t_sets a, t_sets b, t_sets c) = ([[]; [1]], [[1]; [2]], [[2]]).
+Proof. vm_compute. auto. Qed.
+Example ex_rpartition_absent : rpartition (t_mk "baaab") (tS "c") = (t_mk "baaab", mkA [] [], mkA [] []).
+Proof. reflexivity. Qed.
+(* the library does not reject the empty separator (str.partition("") raises ValueError) *)
+Example ex_partition_empty_sep : texts3 (partition (t_mk "ab") []) = ([], [], tS "ab")
+  /\ texts3 (rpartition (t_mk "ab") []) = (tS "ab", [], []).
+Proof. vm_compute. auto. Qed.
+Example ex_partition_pieces := partition_pieces (t_mk "baaab") (tS "aa") t_tbl_sorted.
+Example ex_partition_wf := partition_wf (t_mk "baaab") (tS "aa") t_tbl_sorted (t_nodup _) t_tbl_final.
 
 (* ================================================================== *)
 (* 4. split / rsplit with an explicit separator                       *)
@@ -746,6 +799,91 @@ Proof.
   rewrite py_split_offsets_cum, py_split_texts_eq by exact Hsep. auto.
 Qed.
 
+(* --- the right split against the specification --- *)
+Fixpoint sumlen (ls : nat) (L : list str) : nat :=
+  match L with [] => 0 | p :: r => length p + ls + sumlen ls r end.
+
+Lemma cum_offs_snoc ls : forall M off z,
+  cum_offs ls off (M ++ [z]) = cum_offs ls off M ++ [(off + sumlen ls M, length z)].
+Proof.
+  induction M as [|x M IH]; intros off z; simpl.
+  - now rewrite Nat.add_0_r.
+  - f_equal. rewrite IH. f_equal. f_equal. f_equal. lia.
+Qed.
+
+Lemma sumlen_snoc ls M z : sumlen ls (M ++ [z]) = sumlen ls M + length z + ls.
+Proof. induction M as [|x M IH]; simpl; lia. Qed.
+
+Lemma sumlen_revmap ls L : sumlen ls (rev (map (@rev char) L)) = sumlen ls L.
+Proof. induction L as [|x L IH]; simpl; auto. rewrite sumlen_snoc, rev_length. lia. Qed.
+
+Lemma join_length sp : forall L, L <> [] -> length (join sp L) + length sp = sumlen (length sp) L.
+Proof.
+  induction L as [|x L IH]; intros Hne; [congruence|]. destruct L as [|y L].
+  - simpl. lia.
+  - rewrite (join_cons sp x (y :: L)) by discriminate. rewrite !app_length.
+    change (sumlen (length sp) (x :: y :: L)) with (length x + length sp + sumlen (length sp) (y :: L)).
+    rewrite <- IH by discriminate. lia.
+Qed.
+
+Lemma cum_offs_mirror ls T : forall L off, T + ls = off + sumlen ls L ->
+  rev (map (fun ol => (T - (fst ol + snd ol), snd ol)) (cum_offs ls off L))
+  = cum_offs ls 0 (rev (map (@rev char) L)).
+Proof.
+  induction L as [|p L IH]; intros off HT; [reflexivity|].
+  cbn [cum_offs map rev fst snd]. cbn [sumlen] in HT.
+  rewrite (IH (off + length p + ls)) by lia.
+  rewrite cum_offs_snoc, sumlen_revmap, rev_length. f_equal. f_equal. f_equal. lia.
+Qed.
+
+Theorem py_rsplit_offsets_cum sep m s : sep <> [] ->
+  py_rsplit_offsets sep m s = cum_offs (length sep) 0 (py_rsplit s sep m).
+Proof.
+  intros Hsep. pose proof (rev_nonempty sep Hsep) as Hr.
+  unfold py_rsplit_offsets, py_rsplit. rewrite py_split_offsets_cum by exact Hr.
+  rewrite rev_length. apply cum_offs_mirror.
+  pose proof (join_length (rev sep) _ (py_split_nonempty (rev s) (rev sep) m)) as H.
+  rewrite py_split_join in H by exact Hr. rewrite !rev_length in H. lia.
+Qed.
+
+Corollary py_rsplit_texts_eq sep m t : sep <> [] -> py_rsplit_texts sep m t = py_rsplit t sep m.
+Proof.
+  intros Hsep. unfold py_rsplit_texts. rewrite py_rsplit_offsets_cum by exact Hsep.
+  apply text_at_map.
+  apply (cum_texts sep (py_rsplit t sep m) [] t (py_rsplit_nonempty _ _ _)).
+  cbn [app]. symmetry. now apply py_rsplit_join.
+Qed.
+
+Theorem split_right_offsets s sep m : ssorted (tbl s) -> sep <> [] ->
+  exists ps, split_sep s sep m true = OK ps /\
+    map base ps = py_rsplit_texts sep m (base s) /\
+    Forall2 (slice_of s) (py_rsplit_offsets sep m (base s)) ps.
+Proof.
+  intros Hs Hsep. destruct (split_sep_spec s sep m true Hs Hsep) as (ps & E & H1 & H2 & H3).
+  exists ps. split; auto. unfold split_texts in *.
+  rewrite py_rsplit_offsets_cum, py_rsplit_texts_eq by exact Hsep. auto.
+Qed.
+
+Definition t_show (r : res (list astr)) : list (str * list (list nat)) :=
+  match r with OK ps => map (fun p => (base p, t_sets p)) ps | Err _ => [] end.
+(* separators at both ends and doubled *)
+Example ex_split_ends : t_show (split_sep (t_mk ",a,,b,") (tS ",") (-1) false)
+  = [([], []); (tS "a", [[1]]); ([], []); (tS "b", [[2]]); ([], [])].
+Proof. reflexivity. Qed.
+Example ex_rsplit_max : t_show (split_sep (t_mk ",a,,b,") (tS ",") 2 true)
+  = [(tS ",a,", [[]; [1]; [1]]); (tS "b", [[2]]); ([], [])].
+Proof. reflexivity. Qed.
+(* a separator that overlaps itself: split scans from the left, rsplit from the right *)
+Example ex_split_overlap : t_show (split_sep (t_mk "aaaaa") (tS "aa") (-1) false) = [([], []); ([], []); (tS "a", [[2]])]
+  /\ t_show (split_sep (t_mk "aaaaa") (tS "aa") (-1) true) = [(tS "a", [[]]); ([], []); ([], [])].
+Proof. split; reflexivity. Qed.
+Example ex_split_offsets : py_split_offsets (tS "aa") (-1) (tS "aaaaa") = [(0, 0); (2, 0); (4, 1)]. Proof. reflexivity. Qed.
+Lemma t_sep_nonempty : tS "aa" <> []. Proof. discriminate. Qed.
+Example ex_split_spec := split_sep_spec (t_mk "aaaaa") (tS "aa") (-1) true t_tbl_sorted t_sep_nonempty.
+Example ex_rsplit_offsets : py_rsplit_offsets (tS "aa") (-1) (tS "aaaaa") = [(0, 1); (3, 0); (5, 0)]. Proof. reflexivity. Qed.
+Example ex_split_right := split_right_offsets (t_mk "aaaaa") (tS "aa") (-1) t_tbl_sorted t_sep_nonempty.
+Example ex_split_left := split_left_offsets (t_mk "aaaaa") (tS "aa") (-1) t_tbl_sorted t_sep_nonempty.
+
 (* ================================================================== *)
 (* 5. pieces located with find (split(None), splitlines)              *)
 (* ================================================================== *)
@@ -841,12 +979,33 @@ Proof.
   intros Hs H. apply slices_by_find_located in H as [H1 H2]. rewrite H1. now apply located_slices.
 Qed.
 
+(* an empty piece (an empty line of splitlines) is the empty value wherever find puts it *)
+Lemma empty_slice s o : slice_fn s (o, 0) = mkA [] [].
+Proof.
+  unfold slice_fn, getitem_slice, slice_core. cbn [fst snd]. rewrite Nat.add_0_r, !slice_idx_nat.
+  now rewrite Nat.leb_refl.
+Qed.
+
 Theorem slices_by_find_wf s : ssorted (tbl s) -> nodup_active s -> forall pieces idx,
   Forall wf_piece (slices_by_find s pieces idx).
 Proof.
   intros Hs Hn. induction pieces as [|p r IH]; intros idx; cbn [slices_by_find]; [constructor|].
   destruct (find_from (base s) p idx); constructor; auto; now apply slice_wf.
 Qed.
+
+(* "a  b a".split() = ['a', 'b', 'a'] *)
+Example ex_located : located (tS "a  b a") 0 [tS "a"; tS "b"; tS "a"] [(0, 1); (3, 1); (5, 1)].
+Proof.
+  apply (loc_cons _ 0 (tS "a") _ 0); [lia|now exists [], (tS "  b a")|intros; lia|].
+  apply (loc_cons _ 1 (tS "b") _ 3); [lia|now exists (tS "a  "), (tS " a")| |].
+  { apply gap_first_char. intros o' Ho'. assert (H : o' = 1 \/ o' = 2) by lia. destruct H as [->| ->]; discriminate. }
+  apply (loc_cons _ 4 (tS "a") _ 5); [lia|now exists (tS "a  b "), []| |constructor].
+  apply gap_first_char. intros o' Ho'. assert (H : o' = 4) by lia. subst. discriminate.
+Qed.
+Example ex_by_find : map (fun p => (base p, t_sets p)) (slices_by_find (t_mk "a  b a") [tS "a"; tS "b"; tS "a"] 0)
+  = [(tS "a", [[]]); (tS "b", [[2]]); (tS "a", [[]])].
+Proof. reflexivity. Qed.
+Example ex_by_find_spec := slices_by_find_spec (t_mk "a  b a") _ _ t_tbl_sorted ex_located.
 
 Print Assumptions strip_text.
 Print Assumptions strip_piece.
@@ -869,3 +1028,12 @@ Print Assumptions split_left_offsets.
 Print Assumptions py_split_texts_eq.
 Print Assumptions slices_by_find_spec.
 Print Assumptions slices_by_find_wf.
+Print Assumptions strip_piece_at.
+Print Assumptions removeprefix_wf.
+Print Assumptions removesuffix_wf.
+Print Assumptions rpartition_wf.
+Print Assumptions partition_concat.
+Print Assumptions rpartition_concat.
+Print Assumptions slices_cumulative_spec.
+Print Assumptions py_rsplit_offsets_cum.
+Print Assumptions split_right_offsets.
